@@ -85,6 +85,13 @@ def run(tier, seed, t0):
         for tid, t in tmap.items():
             if drv.get(str(tid)) != ('1' if mem_zst(t) else '0'):
                 disagreements.append({'what': 'Coq mem_zst and generator mem_zst differ on %s' % sexp(t)})
+        # the catalogue is filtered by the Python mirror of `wf`: the theorems' hypothesis is asked of the extracted `wf` itself
+        wfr = run_cases(driver, [case_line('w%d' % tid, 'wf', tid, sexp(t)) for tid, t in tmap.items()])
+        stats['evaluations'] += len(tmap)
+        stats['catalogue_types_wf_in_coq'] = sum(1 for tid in tmap if wfr.get('w%d' % tid) == '1')
+        for tid, t in tmap.items():
+            if wfr.get('w%d' % tid) != '1':
+                disagreements.append({'what': 'a catalogue type is not `wf` for the Coq model (answer %s), so no theorem speaks about it: %s' % (wfr.get('w%d' % tid), sexp(t))})
         # (2) refusal
         zc = [(tid, t) for tid, t in zst_collections(tmap) if flt(t)]
         enc_cases = []
